@@ -45,57 +45,43 @@ example : identSuffix asciiWord ['f', 'o'] = ['f', 'o'] ∧
     (['x', '=', 'f', 'o'] : Str) = ['x'] ++ '=' :: identSuffix asciiWord ['x', '=', 'f', 'o'] ∧
     asciiWord '=' = false := by decide
 
-/-- outside the `from` branch, `assist` returns that prefix -/
-theorem C12_assist_prefix (isWord : Char → Bool) (line : Str) (h : fromBranch line = false) :
-    assistPrefix isWord line = identSuffix isWord line := by
-  simp only [assistPrefix, h, Bool.false_eq_true, if_false]
-  exact prefixOf_eq isWord line
+/-! ## the `from` branch: `from_module = re.match(r'\s*from\s+([\w.]*)$', line)` -/
 
--- `import os.pa|` and `from os import pa|` are outside the `from` branch
-example : fromBranch ['i', 'm', 'p', 'o', 'r', 't', ' ', 'o', 's', '.', 'p', 'a'] = false ∧
-    fromBranch ['f', 'r', 'o', 'm', ' ', 'o', 's', ' ', 'i', 'm', 'p', 'o', 'r', 't', ' ', 'p', 'a'] = false := by
-  decide
+/-- when the pattern matches, the module text ends the line, consists of word characters and dots, and follows a
+    whitespace character -/
+theorem C12_from_match (isWord : Char → Bool) (line m : Str) (h : fromMatch isWord line = some m) :
+    (∃ pre w, line = pre ++ w :: m ∧ pyIsSpace w = true) ∧ m.all (fun c => isWord c || c == '.') = true :=
+  fromMatch_shape isWord line m h
 
-/-! ## the `from` branch -/
+example : fromMatch asciiWord "  from\t os.pa".toList = some "os.pa".toList ∧
+    fromMatch asciiWord "from os import(pa".toList = none ∧ fromMatch asciiWord "fromage".toList = none ∧
+    fromMatch asciiWord "from ".toList = some [] := by decide
 
-/-- what the two `rpartition`s compute: the text after the last `' '` or `'.'` (all of the line if
-    there is none) -/
-theorem C12_from_prefix_eq (line : Str) :
-    fromPrefix line =
-      (splitBy (fun c => c == Generated.fromSep1 || c == Generated.fromSep2) line).getLastD [] :=
-  fromPrefix_eq_split line
+/-- the full statement for the `from` branch (false of the code before ab8463e, `Witness.C12.C12_from_legacy_false`):
+    the returned prefix, the text after the last dot of the module text, IS the longest run of word characters left of
+    the cursor.  Hypotheses on the abstract word class: no whitespace character and not the dot (true of `\w`). -/
+theorem C12_from_stmt (isWord : Char → Bool) (line m : Str)
+    (hsp : ∀ c, pyIsSpace c = true → isWord c = false) (hdot : isWord Generated.fromSep2 = false)
+    (h : fromMatch isWord line = some m) : fromPrefixOf m = identSuffix isWord line :=
+  fromPrefixOf_eq_identSuffix isWord line m hsp hdot h
 
-example : fromPrefix ['f', 'r', 'o', 'm', ' ', 'o', 's', '.', 'p', 'a'] = ['p', 'a'] := by decide
+-- the hypotheses hold for the ASCII word class; `from os.pa|` is in the branch and gives `pa`
+example : (∀ c, pyIsSpace c = true → asciiWord c = false) ∧ asciiWord Generated.fromSep2 = false ∧
+    fromMatch asciiWord "from os.pa".toList = some "os.pa".toList ∧ fromPrefixOf "os.pa".toList = "pa".toList :=
+  ⟨asciiWord_not_space, by decide, by decide, by decide⟩
 
-/-- the same, as a longest suffix: `fromPrefix` is `identSuffix` for the class "neither `' '` nor `'.'`" -/
-theorem C12_from_prefix_suffix (line : Str) :
-    fromPrefix line = identSuffix (fun c => !fromStop c) line :=
-  fromPrefix_eq_identSuffix line
+/-- so on EVERY line (all three prefix sites of assist: `from` branch, marked import, generic) the first component of
+    assist's result is the longest run of word characters left of the cursor -/
+theorem C12_assist_prefix (isWord : Char → Bool) (line : Str)
+    (hsp : ∀ c, pyIsSpace c = true → isWord c = false) (hdot : isWord Generated.fromSep2 = false) :
+    assistPrefix isWord line = identSuffix isWord line :=
+  assistPrefix_eq isWord line hsp hdot
 
-example : fromStop ' ' = true ∧ fromStop '.' = true ∧ fromStop '(' = false := by decide
-
-/-- so in the `from` branch the prefix is the identifier left of the cursor exactly when the text
-    after the last `' '` / `'.'` has word characters only -/
-theorem C12_from_prefix (isWord : Char → Bool) (line : Str)
-    (hsp : isWord Generated.fromSep1 = false) (hdot : isWord Generated.fromSep2 = false) :
-    fromPrefix line = identSuffix isWord line ↔ (fromPrefix line).all isWord = true :=
-  fromPrefix_iff isWord line hsp hdot
-
--- the hypotheses hold for the ASCII word class, and the right-hand side holds on `from os.pa|` ...
-example : asciiWord Generated.fromSep1 = false ∧ asciiWord Generated.fromSep2 = false ∧
-    fromBranch ['f', 'r', 'o', 'm', ' ', 'o', 's', '.', 'p', 'a'] = true ∧
-    (fromPrefix ['f', 'r', 'o', 'm', ' ', 'o', 's', '.', 'p', 'a']).all asciiWord = true := by decide
--- ... and fails on `from os import(pa|` (still in the `from` branch: `' import '` does not occur)
-example :
-    fromBranch ['f', 'r', 'o', 'm', ' ', 'o', 's', ' ', 'i', 'm', 'p', 'o', 'r', 't', '(', 'p', 'a'] = true ∧
-    (fromPrefix ['f', 'r', 'o', 'm', ' ', 'o', 's', ' ', 'i', 'm', 'p', 'o', 'r', 't', '(', 'p', 'a']).all
-      asciiWord = false := by decide
-
-/-- the full statement for the `from` branch.  FALSE of the code (open defect):
-    `SuppModel.Witness.C12.C12_from_false`. -/
-def C12_from_stmt : Prop :=
-  ∀ (isWord : Char → Bool) (line : Str), isWord ' ' = false → isWord '.' = false →
-    fromBranch line = true → fromPrefix line = identSuffix isWord line
+-- the lines that used to go wrong
+example : assistPrefix asciiWord "from os import(pa".toList = "pa".toList ∧
+    assistPrefix asciiWord "from os\timpo".toList = "impo".toList ∧
+    assistPrefix asciiWord "from \tr".toList = "r".toList ∧
+    assistPrefix asciiWord "from os.pa".toList = "pa".toList := by decide
 
 /-! ## the proposals -/
 
